@@ -14,7 +14,7 @@ from .c07 import fixture_sources, layout_mutations
 
 STAT_PRODS = {'Assign', 'CallStat', 'Do', 'While', 'Repeat', 'If', 'ShortIf', 'ForStep', 'ForIn',
               'Function', 'LocalFunc', 'Local', 'Goto', 'LabelSt', 'StRet', 'StBreak', 'St1Ret', 'St1Break',
-              'TFunc', 'Elif', 'Else', 'SElse'}
+              'TFunc', 'Elif', 'Else', 'SElse', 'SElseEmpty'}
 
 
 def parse_trace(src):
